@@ -19,17 +19,30 @@ META = {
             "configurations; a successful build leaves, for every reachable rule, exactly the output of a build "
             "from an empty out/, which also succeeds; a rebuild with nothing changed executes nothing and changes "
             "nothing; a rule executes iff its current digest has no valid cache entry, a file set is re-executed "
-            "iff its digest changed and unchanged rules are not rebuilt; a failed rule has no cache entry.  The "
+            "iff its digest changed and unchanged rules are not rebuilt; a failed rule has no cache entry.  "
+            "The per-Build memo is explicit state of the model (Caco/BuildSession.v: a Build call entered with a "
+            "memo, the deferred memo write on failing paths, a memo policy): with the memo made inside Build - "
+            "which is decided on every run from where the translator finds the buildContext literal in the "
+            "current source - every history of Build calls on ONE long-lived Builder (or on Builders replaced "
+            "anywhere) goes through the same worlds and executions as the histories of the theorems, so "
+            "incremental = clean, the no-op rebuild and 'a failed rule is not remembered' hold for it; for a "
+            "memo kept across calls the statement is refuted (subset, edit, other subset: stale lists; fail, "
+            "again: 'succeeds'); likewise the parse of the BUILD files, which expands Select patterns against the "
+            "source tree, is per Build call (Caco/BuildParse.v; refuted for parsed files kept on the Builder: an "
+            "added file is not listed, a removed one fails the build).  The "
             "model is tied to the code on every run by replaying generated histories against the real "
-            "caco3.Builder (result, executed rules and the whole out/ tree compared inside Coq after every build), "
+            "caco3.Builder - half of them with a new Builder per build, half on one long-lived Builder per "
+            "configuration - (result, executed rules and the whole out/ tree compared inside Coq after every build), "
             "by statement skeletons and struct layouts regenerated from the source, and by the "
             "implementation-only oracle incremental out/ == from-scratch out/.",
-    "note": "Trusted: Coq kernel + vm_compute; harness/cmd/c10 + checks/c10.py; SHA-256 modelled as the structured "
+    "note": "Trusted: Coq kernel + vm_compute; harness/cmd/c10 + checks/c10.py; gen/caco_build.go (skeletons, "
+            "layouts, creation sites of buildContext); SHA-256 modelled as the structured "
             "value hashed (collision-freeness); an output write always leaves a new (size, mtime, mode) "
-            "(strictly increasing stamp); 'edit => new mtime, size or mode' as in the property's wording; cache "
-            "expiry (7 days) not modelled; docker-backed rules, Ignore patterns, symlinked sources and file sets "
-            "listing output files are outside the model; sqlite KV, os.Lstat, JSON encoding modelled not "
-            "verified; no axioms.",
+            "(strictly increasing stamp); 'edit => new mtime, size or mode' as in the property's wording; "
+            "docker-backed rules, symlinked sources and file sets "
+            "listing output files are outside the theorems' scope; a WORKSPACE.caco3 edit is seen by a new Builder "
+            "only (ReadWorkspace memoises by design; outside the property's operation list); sqlite KV, os.Lstat, "
+            "JSON encoding modelled not verified; no axioms.",
     "technique": "Coq proof (invariant over histories, digest-determines-output induction over the loaded graph, "
                  "DFS = fold over post-order) + vm_compute replay of histories against the real Builder + "
                  "from-scratch differential oracle",
@@ -37,7 +50,7 @@ META = {
 
 MODEL = ["theories/Caco/BuildCorr.vo"]
 PROOFS = ["theories/Props/C10.vo"]
-STATEMENT_FILES = ["theories/Props/C10.v", "theories/Caco/BuildGen.v"]
+STATEMENT_FILES = ["theories/Props/C10.v", "theories/Caco/BuildGen.v", "theories/Caco/BuildSessionGen.v"]
 SEMANTIC_TIE = code_tie.functions("C10")   # Go bodies proved equal to the model (Props/C10Code.v)
 
 
@@ -97,13 +110,24 @@ def obs_coq(o):
     return "mkObs %s %s [%s]" % ("true" if o["ok"] else "false", cl(o["exec"]), outs)
 
 
-def op_coq(op):
+def listed_rules(rs, listed):
+    """The rules the loader sees: those of the packages WORKSPACE.caco3 lists (one BUILD file per package,
+    no sub_builds in these workspaces)."""
+    return [r for r in rs or [] if r["dir"] in listed]
+
+
+def op_coq(op, listed):
     k = op["k"]
     if k == "src":
         st = op.get("stat")
         return "HOp (OSetSrc %s %s)" % (coq_str(op["name"]), "(Some %s)" % stat_coq(st) if st else "None")
     if k == "rules":
-        return "HOp (OSetRules %s)" % rules_coq(op["rules"])
+        return "HOp (OSetRules %s)" % rules_coq(listed_rules(op["rules"], listed))
+    if k == "pkgs":
+        # a WORKSPACE edit changes which BUILD files are read: to the model, the declared rules
+        return "HOp (OSetRules %s)" % rules_coq(listed_rules(op["_all_rules"], listed))
+    if k == "wipe":
+        return "HWipe"
     if k == "tamper":
         if op.get("garbage") is not None:
             c = "(Some (CGarbage %d))" % op["garbage"]
@@ -117,12 +141,31 @@ def op_coq(op):
         return "HOp (OTouchOut %s)" % coq_str(op["out"])
     if k == "advance":
         return "HOp (OAdvance %d)" % op["dt"]
+    if k == "newbuilder":
+        return "HNew"
     return "HBuild %s %s (%s)" % ("true" if op.get("always") else "false", cl(op["targets"]), obs_coq(op["obs"]))
+
+
+def effective(c):
+    """Yields (op, listed packages after the op, all rules on disk after the op)."""
+    listed = list(c["pkgs"])
+    allr = c["rules"]
+    for op in c["ops"]:
+        if op["k"] == "rules":
+            allr = op["rules"]
+        if op["k"] == "pkgs":
+            listed = list(op["pkgs"])
+        yield op, listed, allr
 
 
 def case_coq(c):
     src = "[" + "; ".join("(%s, %s)" % (coq_str(s["name"]), stat_coq(s["stat"])) for s in c["src"]) + "]"
-    return "mkHist %s %s [\n    %s]" % (rules_coq(c["rules"]), src, ";\n    ".join(op_coq(o) for o in c["ops"]))
+    steps = []
+    for op, listed, allr in effective(c):
+        if op["k"] == "pkgs":
+            op = dict(op, _all_rules=allr)
+        steps.append(op_coq(op, listed))
+    return "mkHist %s %s [\n    %s]" % (rules_coq(c["rules"]), src, ";\n    ".join(steps))
 
 
 # ------------------------------------------------ implementation-only oracle
@@ -198,9 +241,13 @@ def oracle(c):
     prev = None          # (index, op) of the previous build if nothing happened since
     prev2 = None         # (build op, src op) for the minimal-rebuild check
     last_build = None
-    for i, op in enumerate(c["ops"]):
-        if op["k"] == "rules":
-            rules = op["rules"]
+    fresh_edits = []     # sources given a never-seen mtime since the last build (any targets)
+    newest = {s["name"]: s["stat"]["mtime"] for s in c["src"]}   # newest mtime a source ever had
+    for i, (op, listed, allr) in enumerate(effective(c)):
+        if op["k"] == "newbuilder":
+            continue     # a new Builder changes nothing about what has to happen
+        if op["k"] in ("rules", "pkgs"):
+            rules = listed_rules(allr, listed)
         if op["k"] == "src":
             if op.get("stat") is None:
                 srcs.discard(op["name"])
@@ -212,6 +259,13 @@ def oracle(c):
                 prev2 = (last_build, op)
             else:
                 prev2 = None
+            if op["k"] == "src":
+                if op["name"] in fresh_edits:
+                    fresh_edits.remove(op["name"])
+                st = op.get("stat")
+                if st is not None and st["mtime"] > newest.get(op["name"], -1):
+                    newest[op["name"]] = st["mtime"]
+                    fresh_edits.append(op["name"])
             prev = None
             continue
         o = op["obs"]
@@ -272,6 +326,22 @@ def oracle(c):
             if missing:
                 yield ("impl:dependent-not-rebuilt",
                        "after a change of %s, dependent file sets %s were not re-executed" % (f, missing), i)
+        # (3') a source got a modification time no build has seen (edit / touch): every file set that
+        # depends on it and is reachable from THIS build's targets (= executed by the from-scratch
+        # build) has a new action digest and must execute, whichever targets were built before
+        if o["ok"] and cl_ is not None and cl_["ok"] and fresh_edits:
+            for f in fresh_edits:
+                if f not in srcs:
+                    continue
+                dep = dependents(rules, srcs, f)
+                kinds = {r["name"]: r["k"] for r in rules}
+                missing = sorted(r for r in dep if kinds.get(r) == "file_set" and r in clean_exec(cl_)
+                                 and r not in o["exec"])
+                if missing:
+                    yield ("impl:dependent-not-rebuilt",
+                           "after a change of %s (new modification time), the dependent file sets %s, reachable "
+                           "from the targets %s, were not re-executed" % (f, missing, op["targets"]), i)
+        fresh_edits = []
         prev = (i, op)
         prev2 = None
         last_build = op
@@ -287,13 +357,15 @@ def fresh_stamp_violations(c):
     (mtime, size)."""
     n = 0
     last = {}
-    for op in c.get("ops", []):
+    for op, _listed, allr in effective(c):
         if op["k"] != "build" or not op.get("obs"):
             continue
+        kinds = {r["name"]: r["k"] for r in allr}
         cur = {f["name"]: (f["mtime"], f["size"]) for f in op["obs"]["outs"]}
         for r in op["obs"]["exec"]:
             o = r + ".fileset"
-            if o in cur and o in last and cur[o] == last[o] and op["obs"]["ok"]:
+            # (a rule that is a bundle now may have a stale <name>.fileset from its time as a file set)
+            if kinds.get(r) == "file_set" and o in cur and o in last and cur[o] == last[o] and op["obs"]["ok"]:
                 n += 1
         last = cur
     return n
@@ -338,7 +410,11 @@ def brief(c, upto=None):
                 d["from_scratch"] = {"ok": o["clean"]["ok"], "exec": o["clean"]["exec"],
                                      "outs": {f["name"]: norm_entries(f) for f in o["clean"]["outs"]}}
         ops.append(d)
-    return {"stream": c["stream"], "i": c["i"], "pkgs": c["pkgs"], "rules": c["rules"],
+    return {"stream": c["stream"], "i": c["i"], "builder": c.get("builder", "fresh"),
+            "work_dir_package": c.get("work", ""),
+            "builder_note": "one = all Build calls of the history on one long-lived caco3.Builder per configuration "
+                            "(renewed only at 'newbuilder'); fresh = a new Builder for every build",
+            "pkgs": c["pkgs"], "rules": c["rules"],
             "src": [{"name": s["name"], "stat": s["stat"]} for s in c["src"]], "ops": ops}
 
 
@@ -366,12 +442,13 @@ def run(ck):
     nbuilds = 0
     stale = 0
     for c in cases:
-        key = json.dumps([c["rules"], [(s["name"], s["stat"]) for s in c["src"]],
+        key = json.dumps([c.get("builder"), c.get("work"), c["rules"], [(s["name"], s["stat"]) for s in c["src"]],
                           [{k: v for k, v in op.items() if k != "obs"} for op in c["ops"]]], sort_keys=True)
         builds = [op for op in c["ops"] if op["k"] == "build" and op.get("obs")]
         nbuilds += len(builds)
         trivial = not any(op["obs"]["exec"] for op in builds)
         ck.count(c["stream"], key=key, trivial=trivial)
+        hist["builder:" + c.get("builder", "fresh")] = hist.get("builder:" + c.get("builder", "fresh"), 0) + 1
         for op in c["ops"]:
             k = op["k"] if op["k"] == "build" else "%s:%s" % (op["k"], op.get("what"))
             if op["k"] == "build" and op.get("obs"):
@@ -390,6 +467,15 @@ def run(ck):
                                                  "an unchanged rebuild executes nothing; only dependents of a "
                                                  "change execute; a failed rule is executed again"})
     ck.coverage["op_histogram"] = hist
+    grown = sum(c["fds"][1] - c["fds"][0] for c in cases if c.get("fds") and c["fds"][0] >= 0)
+    calls = sum(c["fds"][2] for c in cases if c.get("fds") and c["fds"][0] >= 0)
+    if calls:
+        ck.coverage["open_files_left_per_build_call"] = round(grown / calls, 2)
+        if grown > 0:
+            ck.coverage["open_files_note"] = (
+                "every Builder.Build leaves file descriptors open (the sqlite handle on out/CACHE is never closed): "
+                "%d descriptors over %d Build calls in the harness processes; not a statement of C10, recorded "
+                "because a long-lived Builder accumulates them" % (grown, calls))
     ck.coverage["builds_observed"] = nbuilds
     if stale:
         ck.notes.append("hypothesis 'an output write leaves a new stat' did not hold %d times on this file system" % stale)
@@ -458,7 +544,12 @@ def run(ck):
         trusted=["Coq 8.16.1 kernel + vm_compute", "harness/cmd/c10 (workspace writer, log and out/ projection)",
                  "checks/c10.py (history -> Coq, differential oracle)",
                  "modelled not verified: sqlite KV cache, os.Lstat/Chtimes, encoding/json, filepath.Glob/WalkDir"],
-        rule="fixed corpus (edit and edit-back to the same stat, chmod/touch/same-size edit, files entering and "
+        rule="every history either with a new Builder per build or on one long-lived Builder per configuration "
+             "(chosen per history; fixed corpus in both styles + one-Builder corpus: subset/edit/other subset, "
+             "fail/again, diamond arms, outputs deleted between different targets, BUILD edits, renewed Builder, "
+             "out/ removed wholesale with its CACHE file, WORKSPACE.caco3 edits that drop and re-list a package "
+             "(followed by a new Builder: ReadWorkspace memoises)); "
+             "fixed corpus (edit and edit-back to the same stat, chmod/touch/same-size edit, files entering and "
              "leaving a selection, deleted and overwritten outputs, a failing rule injected/repaired/injected "
              "again, rule reorder/kind change/removal, target subsets) + seeded random histories over 1-4 "
              "packages, 2-8 file_set/bundle rules in random DAGs, <=12 (quick) / <=40 (thorough) operations; after "
